@@ -132,6 +132,7 @@ class CSSMediaRule(cssrule.CSSRuleRules):
                 self._log.error(
                     'CSSMediaRule: No "{" found: %s' % self._valuestr(cssText)
                 )
+                self._media = oldMedia
                 return
 
             # cssRules
@@ -251,9 +252,20 @@ class CSSMediaRule(cssrule.CSSRuleRules):
                 self._media = oldMedia
                 self._cssRules = oldCssRules
 
+    def _setCssTextOrKeep(self, cssText):
+        "Set `cssText`, keep the current media and rules if it is rejected."
+        oldMedia = self._media
+        oldCssRules = self._cssRules
+        try:
+            self._setCssText(cssText)
+        except Exception:
+            self._media = oldMedia
+            self._cssRules = oldCssRules
+            raise
+
     cssText = property(
         _getCssText,
-        _setCssText,
+        _setCssTextOrKeep,
         doc="(DOM) The parsable textual representation of this rule.",
     )
 
